@@ -1367,6 +1367,68 @@ for _p in ("C13", "C14"):
 
 
 # ---------------------------------------------------------------------------
+# RIB lock-grain family (C01 / C08 under concurrency): GribiRIBConc / _MC / Trace - a Flush of several network
+# instances interleaved with installs; linearizability of the recorded histories
+
+class LinFamily:
+    FAMILY = "riblin"
+
+    def __init__(self, prop):
+        self.prop = prop
+
+    def run(self, ctx):
+        res = Result()
+        quick = ctx.tier == "quick"
+        ctx.build_vh()
+        mcs, states, trans = [], 0, 0
+        for progs in (("MC_Progs1",) if quick else ("MC_Progs1", "MC_Progs2")):
+            cfg = (f"SPECIFICATION MCSpec\nCONSTANTS\n  FlushNIs <- MC_FlushNIs\n  Progs <- {progs}\n  HoldToEnd = TRUE\n"
+                   "INVARIANTS Linearizable TypeOK\nCHECK_DEADLOCK FALSE\n")
+            run = require_ok(ctx.tlc("GribiRIBConc_MC", None, name="mc-lin", workers=vlib.NCPU, cfg_text=cfg, timeout=3000, heap="16g"),
+                             "model checking GribiRIBConc_MC")
+            states += run.distinct
+            trans += run.generated
+            mcs.append({"module": "GribiRIBConc_MC", "constants": {"Progs": progs, "HoldToEnd": True}, "distinct_states": run.distinct,
+                        "generated": run.generated, "secs": round(run.secs, 1)})
+        trace = os.path.join(ctx.work, "lintrace.ndjson")
+        p = ctx.run_vh(["lin-run", "-out", trace, "-seed", str(ctx.seed), "-random", str(60 if quick else 1500)])
+        if p.returncode != 0:
+            raise Infra("vh lin-run failed: " + p.stdout[-2000:] + p.stderr[-4000:])
+        info = json.loads(p.stdout.strip().splitlines()[-1])
+        cfg = 'SPECIFICATION LTSpec\nCONSTANTS\n  TraceFile = "trace.ndjson"\nPOSTCONDITION TraceAccepted\nCHECK_DEADLOCK FALSE\n'
+        run = ctx.tlc("GribiRIBConcTrace", None, name="validate-lin", workers=1, cfg_text=cfg, extra_files={trace: "trace.ndjson"}, timeout=3000, heap="12g")
+        matched, total, mism = parse_trace_report(run)
+        if matched != total:
+            raise Infra(f"trace validation stopped at line {matched + 1} of {total}\n" + run.tail())
+        lines = [json.loads(x) for x in open(trace)]
+        for (ln, ev, comps) in mism[:5]:
+            e = lines[ln - 1]
+            rp = os.path.join(vlib.ROOT, "replays", f"{self.prop}-lin-{vlib.sha(json.dumps(e, sort_keys=True))}.json")
+            json.dump({"property": self.prop, "family": self.FAMILY, "seed": ctx.seed, "components": comps, "history": e}, open(rp, "w"), indent=1)
+            what = ("a Flush of %s interleaved with concurrent installs: no order of the acknowledged calls that respects real time folds to the installed entries %s"
+                    % (e["flushNIs"], e.get("final"))) if "notLinearizable" in comps else f"concurrent Flush / install scenario did not complete: {comps}"
+            res.violations.append({"replay": rp, "what": what})
+        res.coverage = {
+            "states": states, "transitions": trans, "exhaustive": False, "traces_validated_against_impl": total, "evaluations": total,
+            "distinct_nontrivial": info.get("with_overlap", 0),
+            "rule": ("one case = one concurrent history of the real rib package: a Flush of 2-3 network instances paused at its first removal in a chosen instance "
+                     "while 1-2 adder goroutines install next-hops in chosen instances, every call stamped at invocation and return; non-trivial = "
+                     "at least one install was acknowledged while the Flush was paused"),
+            "samples": [lines[0]] if lines else [["none"]], "driver": info, "model_checking": mcs,
+        }
+        res.assumptions = ["the pause of the Flush is produced by blocking the post-change hook for 15 ms; the verdict is taken from the stamped history, never from timing"]
+        return res
+
+    def replay(self, ctx, path):
+        raise Infra("concurrent histories are re-recorded by re-running the check")
+
+
+for _p in ("C01", "C08"):
+    _old = REGISTRY[_p]
+    REGISTRY[_p] = CompositeFamily(_p, (_old.parts if isinstance(_old, CompositeFamily) else [_old]) + [LinFamily(_p)])
+
+
+# ---------------------------------------------------------------------------
 # concurrency family (C11): GribiServerCS / GribiServerCS_MC / GribiServerCSTrace + race detector
 
 class ConcFamily:
